@@ -45,7 +45,9 @@ S = Suite(
           "single/double/default precision, footprint/dispersion, analytic (CONSTANT), "
           "default/None/explicit halo and modes, output_levels / full_output / default level, "
           "ustar / z0 / both, scalar and list forcing, 1-3 towers (different heights, lat/lon, "
-          "with and without reference), every time index of 1-3 steps, ideal and user flux; "
+          "with and without reference, reference origins on the equator / Greenwich meridian), "
+          "every time index of 1-3 steps, ideal and user flux; sequences of 3-4 configurations "
+          "in one process differing in src_loc / flux shape / domain only; "
           "grids <= 20x16, nz <= 8; quick 40 configurations, thorough 400",
     rule="np.array_equal on grid, conc, flx; == on tower_name, tower_xy, timestamp, step "
          "parameters; dataclass == for YAML against dictionary",
@@ -176,6 +178,24 @@ def pipeline(raw, tower, met_index, flux=None):
                    nontrivial=nontrivial)
 
 
+@S.kind("pipeline-sequence")
+def pipeline_sequence(raws, tower=0, met_index=0):
+    """The statement holds 'for any valid configuration' - also for the second and third
+    configuration run by one process.  `raws` are run one after the other (same tower and time
+    index); each is compared with the hand pipeline exactly like kind "pipeline".  The members
+    differ in ONE option (src_loc, flux shape, domain size ...), so anything the interface keeps
+    from an earlier configuration shows in a later member."""
+    for k, raw in enumerate(raws):
+        v = pipeline(raw, tower, met_index, None)
+        if not v.ok:
+            first = k == 0
+            return Verdict(False, "configuration %d of %d in this process: %s"
+                           % (k + 1, len(raws), v.detail),
+                           key=v.key if first else "later-configuration-differs-from-pipeline")
+    return Verdict(True, "%d configurations in sequence, each equal to its pipeline" % len(raws),
+                   nontrivial=len(raws) > 1)
+
+
 @S.kind("yaml-equals-dict")
 def yaml_equals_dict(raw):
     import yaml
@@ -243,7 +263,10 @@ def random_config(rng, force=None):
         dom["output_levels"] = None
 
     ref = ch("ref", [True, True, True, False])
-    ref_lat, ref_lon = ch("origin", [(50.95, 11.586), (-33.4, 151.2), (0.5, -60.0)])
+    # incl. reference origins ON the equator / the Greenwich meridian (0.0 and integer 0 are
+    # ordinary coordinates, not "missing")
+    ref_lat, ref_lon = ch("origin", [(50.95, 11.586), (-33.4, 151.2), (0.5, -60.0),
+                                      (0.0, 37.3), (51.4779, 0.0), (0, 0), (-12.5, 0)])
     if ref:
         dom["ref_lat"], dom["ref_lon"] = ref_lat, ref_lon
     nt = ch("n_towers", [1, 2, 3])
@@ -328,11 +351,44 @@ _CORNERS = [
     dict(closure="MOST", ref=False, n_towers=2, footprint=False, n_steps=2, lists="scalars"),
     dict(closure="MOSTM", footprint=True, precision="single", halo=30, modes=[12, 20],
          n_steps=1, lists1="all1"),
+    dict(closure="MOST", ref=True, origin=(0.0, 37.3), n_towers=2, footprint=True),
+    dict(closure="MOST", ref=True, origin=(51.4779, 0.0), n_towers=2, footprint=False),
+    dict(closure="MOSTM", ref=True, origin=(0, 0), n_towers=1, footprint=True),
 ]
+
+
+def _sequences(rng):
+    """Members differ in one solver/domain option that only enters through the surface flux or
+    the grid; dispersion mode (where the source values matter) and footprint mode."""
+    for fp in (False, True):
+        raw, _n = random_config(rng, dict(closure="MOST", footprint=fp, levels="default",
+                                          n_towers=1, n_steps=1, lists1="scalars", ref=True,
+                                          shape="diamond", nx=16, ny=12, xmax=160.0, ymax=90.0))
+        raw.setdefault("solver", {})
+        raw["solver"].pop("src_loc", None)
+
+        def variant(**sol):
+            r = copy.deepcopy(raw)
+            for k, v in sol.items():
+                if k in ("nx", "xmax"):
+                    r["domain"][k] = v
+                elif v is None:
+                    r["solver"].pop(k, None)
+                else:
+                    r["solver"][k] = v
+            return r
+        yield [variant(), variant(src_loc=[40.0, 30.0]), variant(src_loc=[110.0, 60.0]), variant()]
+        yield [variant(src_loc=[100.0, 20.0]), variant(src_loc=[100.0, 20.0], surface_flux_shape="circle"),
+               variant(src_loc=[50.0, 45.0], surface_flux_shape="circle")]
+        yield [variant(src_loc=[60.0, 40.0]), variant(src_loc=[60.0, 40.0], xmax=120.0),
+               variant(src_loc=[60.0, 40.0], nx=20)]
 
 
 def generate(tier, rng):
     n_cfg = 400 if tier == "thorough" else 40
+    for rep in range(3 if tier == "thorough" else 1):
+        for raws in _sequences(rng):
+            yield "pipeline-sequence", dict(raws=raws)
     for k in range(n_cfg):
         force = _CORNERS[k] if k < len(_CORNERS) else None
         raw, n = random_config(rng, force)
